@@ -101,6 +101,7 @@ def _tree(kind, present):
 
 
 STRAY = 'tmp.metadata@%d.h5' % (T0 + 3600 + 5)      # an in-progress / stale tmp file: never listed, never stops the look-back
+STRAY_RF = 'tmp.rf@%d.000.h5' % (T0 + 3600 + 5)      # the data file a concurrent writer has open right now
 
 
 class TD:
@@ -125,7 +126,7 @@ def _run_listing(kind, present, gone, start, end, reverse, stray=False):
     def listdir(path):
         sd = path.rsplit('/', 1)[1]
         if gone >= 0 and sd == SUBS[gone]: raise OSError('vanished')
-        return [n for (_t, n) in tree[sd]] + ([STRAY] if (stray and sd == SUBS[1]) else [])
+        return [n for (_t, n) in tree[sd]] + ([STRAY if kind == 1 else STRAY_RF] if (stray and sd == SUBS[1]) else [])
     st = None if start is None else TD(T0 + start)
     en = None if end is None else TD(T0 + end)
     old = L.os.listdir
@@ -175,6 +176,30 @@ def _listing_rev_rf_none(p0: bool, p1: bool, p2: bool, p3: bool, start: Optional
     post: _
     """
     got, dirs, tree = _run_listing(0, [p0, p1, p2, p3], -1, start, end, True)
+    want = _expected_listing(0, tree, -1, start, end)
+    return got == (list(reversed(want))) and dirs == ['other']
+
+
+def _listing_fwd_rf_none_stray(p0: bool, p1: bool, p2: bool, p3: bool, start: Optional[int], end: Optional[int]) -> bool:
+    """
+    pre: start is None or 0 <= start <= 3 * 3600
+    pre: end is None or 0 <= end <= 3 * 3600
+    pre: start is None or end is None or start <= end
+    post: _
+    """
+    got, dirs, tree = _run_listing(0, [p0, p1, p2, p3], -1, start, end, False, True)
+    want = _expected_listing(0, tree, -1, start, end)
+    return got == (want) and dirs == ['other']
+
+
+def _listing_rev_rf_none_stray(p0: bool, p1: bool, p2: bool, p3: bool, start: Optional[int], end: Optional[int]) -> bool:
+    """
+    pre: start is None or 0 <= start <= 3 * 3600
+    pre: end is None or 0 <= end <= 3 * 3600
+    pre: start is None or end is None or start <= end
+    post: _
+    """
+    got, dirs, tree = _run_listing(0, [p0, p1, p2, p3], -1, start, end, True, True)
     want = _expected_listing(0, tree, -1, start, end)
     return got == (list(reversed(want))) and dirs == ['other']
 
@@ -417,6 +442,174 @@ def _listing_rev_md_gone2_stray(p0: bool, p1: bool, p2: bool, p3: bool, start: O
     got, dirs, tree = _run_listing(1, [p0, p1, p2, p3], 2, start, end, True, True)
     want = _expected_listing(1, tree, 2, start, end)
     return got == (list(reversed(want))) and dirs == ['other']
+
+
+# ------------------------------------------------------------------ ilsdrf tree walk on an in-memory tree (C14)
+
+TSA, TSB, TSX = '2020-01-01T00-00-00', '2020-01-01T01-00-00', '2019-05-05T00-00-00'
+
+
+def _mk_tree(pA, pM, pB, pL, fA1, fM):
+    """directory -> (subdirectories in an arbitrary unsorted order, files).  Channels: /t/chA (RF; nested metadata channel /t/chA/metadata),
+    /t/<timestamp-named non-channel dir>/chB (RF), /t/zmd (legacy metadata.h5: both kinds).  Stray files, tmp. files, data-like files outside any
+    channel, and an unrelated directory are present throughout."""
+    return {
+        '/t': (['zmd', 'chA', 'other', TSX], ['readme.txt', 'rf@5.000.h5']),
+        '/t/chA': ([TSB, 'metadata', TSA], (['drf_properties.h5'] if pA else []) + ['notes.txt']),
+        '/t/chA/' + TSA: ([], (['rf@%d.000.h5' % (T0 + 10)] if fA1 else []) + ['tmp.rf@%d.000.h5' % (T0 + 11), 'junk.bin']),
+        '/t/chA/' + TSB: ([], ['rf@%d.000.h5' % (T0 + 3610)]),
+        '/t/chA/metadata': ([TSA], ['dmd_properties.h5'] if pM else []),
+        '/t/chA/metadata/' + TSA: ([], (['metadata@%d.h5' % (T0 + 20)] if fM else []) + ['tmp.metadata@%d.h5' % (T0 + 21)]),
+        '/t/' + TSX: (['chB'], []),
+        '/t/' + TSX + '/chB': ([TSA], ['drf_properties.h5'] if pB else []),
+        '/t/' + TSX + '/chB/' + TSA: ([], ['rf@%d.000.h5' % (T0 + 30)]),
+        '/t/other': ([TSA], ['metadata@7.h5']),
+        '/t/other/' + TSA: ([], ['rf@%d.000.h5' % (T0 + 40)]),
+        '/t/zmd': ([TSA], ['metadata.h5'] if pL else []),
+        '/t/zmd/' + TSA: ([], ['metadata@%d.h5' % (T0 + 60), 'rf@%d.000.h5' % (T0 + 50)]),
+    }
+
+
+def _expected_tree(tree, start, recursive, reverse, inc_drf, inc_dmd, p_drf, p_dmd):
+    if p_drf is None: p_drf = inc_drf
+    if p_dmd is None: p_dmd = inc_dmd
+    out = []
+
+    def channel_files(d, only=None):
+        dirs, files = tree[d]
+        is_drf = ('drf_properties.h5' in files or 'metadata.h5' in files) and inc_drf
+        is_dmd = ('dmd_properties.h5' in files or 'metadata.h5' in files) and inc_dmd
+        got = []
+        for sd in dirs:
+            if len(sd) != 19 or sd[4] != '-' or sd[10] != 'T': continue
+            if only is not None and sd != only: continue
+            for f in tree[d + '/' + sd][1]:
+                if f.startswith('tmp.') or not f.endswith('.h5') or '@' not in f: continue
+                body = f[f.index('@') + 1:-3]
+                if is_drf and body.count('.') == 1 and f.startswith('rf@'): got.append((int(body.split('.')[0]), d + '/' + sd + '/' + f))
+                elif is_dmd and body.count('.') == 0: got.append((int(body), d + '/' + sd + '/' + f))
+        got.sort(reverse=reverse)
+        return [p_ for (_t, p_) in got]
+
+    def visit(d):
+        dirs, files = tree[d]
+        props = [f for f in files if f in ('drf_properties.h5', 'dmd_properties.h5', 'metadata.h5')]
+        if props:
+            sel = [f for f in props if (p_drf and f in ('drf_properties.h5', 'metadata.h5')) or (p_dmd and f in ('dmd_properties.h5', 'metadata.h5'))]
+            out.extend(d + '/' + f for f in sorted(sel, reverse=reverse))
+            out.extend(channel_files(d))
+        if recursive:
+            for sd in sorted(dirs, reverse=reverse): visit(d + '/' + sd)
+
+    if start.count('/') == 3 and start.rsplit('/', 1)[1] in (TSA, TSB):
+        # the path itself is a timestamped subdirectory of a channel: its files are listed
+        root, sd = start.rsplit('/', 1)
+        if (inc_drf or inc_dmd) and any(f in ('drf_properties.h5', 'dmd_properties.h5', 'metadata.h5') for f in tree[root][1]):
+            out.extend(channel_files(root, only=sd))
+    visit(start)
+    return out
+
+
+def _ilsdrf(tree, start, recursive, reverse, inc_drf, inc_dmd, p_drf, p_dmd):
+    def walk(top):
+        dirs, files = list(tree[top][0]), list(tree[top][1])
+        yield top, dirs, files
+        for d in list(dirs):
+            for x in walk(top + '/' + d): yield x
+    def listdir(path): return list(tree[path][0]) + list(tree[path][1])
+    old = (L.os.walk, L.os.listdir)
+    L.os.walk = walk; L.os.listdir = listdir
+    try:
+        return list(L.ilsdrf(start, recursive=recursive, reverse=reverse, include_drf=inc_drf, include_dmd=inc_dmd, include_drf_properties=p_drf,
+                             include_dmd_properties=p_dmd))
+    finally:
+        L.os.walk, L.os.listdir = old
+
+
+def _tree_case(start, recursive, reverse, pA, pM, pB, pL, fA1, fM, inc_drf, inc_dmd, p_drf, p_dmd):
+    tree = _mk_tree(pA, pM, pB, pL, fA1, fM)
+    got = _ilsdrf(tree, start, recursive, reverse, inc_drf, inc_dmd, p_drf, p_dmd)
+    want = _expected_tree(tree, start, recursive, reverse, inc_drf, inc_dmd, p_drf, p_dmd)
+    return got == want and len(set(got)) == len(got)
+
+
+def _ilsdrf_tree_0_1_0(pA: bool, pM: bool, pB: bool, pL: bool, inc_drf: bool, inc_dmd: bool, p_drf: Optional[bool], p_dmd: Optional[bool]) -> bool:
+    """
+    post: _
+    """
+    return _tree_case('/t', True, False, pA, pM, pB, pL, True, True, inc_drf, inc_dmd, p_drf, p_dmd)
+
+
+def _ilsdrf_tree_0_1_1(pA: bool, pM: bool, pB: bool, pL: bool, inc_drf: bool, inc_dmd: bool, p_drf: Optional[bool], p_dmd: Optional[bool]) -> bool:
+    """
+    post: _
+    """
+    return _tree_case('/t', True, True, pA, pM, pB, pL, True, True, inc_drf, inc_dmd, p_drf, p_dmd)
+
+
+def _ilsdrf_tree_1_1_0(pA: bool, pM: bool, pB: bool, pL: bool, fA1: bool, fM: bool, inc_drf: bool, inc_dmd: bool, p_drf: Optional[bool], p_dmd: Optional[bool]) -> bool:
+    """
+    post: _
+    """
+    return _tree_case('/t/chA', True, False, pA, pM, pB, pL, fA1, fM, inc_drf, inc_dmd, p_drf, p_dmd)
+
+
+def _ilsdrf_tree_1_1_1(pA: bool, pM: bool, pB: bool, pL: bool, fA1: bool, fM: bool, inc_drf: bool, inc_dmd: bool, p_drf: Optional[bool], p_dmd: Optional[bool]) -> bool:
+    """
+    post: _
+    """
+    return _tree_case('/t/chA', True, True, pA, pM, pB, pL, fA1, fM, inc_drf, inc_dmd, p_drf, p_dmd)
+
+
+def _ilsdrf_tree_1_0_0(pA: bool, pM: bool, pB: bool, pL: bool, fA1: bool, fM: bool, inc_drf: bool, inc_dmd: bool, p_drf: Optional[bool], p_dmd: Optional[bool]) -> bool:
+    """
+    post: _
+    """
+    return _tree_case('/t/chA', False, False, pA, pM, pB, pL, fA1, fM, inc_drf, inc_dmd, p_drf, p_dmd)
+
+
+def _ilsdrf_tree_1_0_1(pA: bool, pM: bool, pB: bool, pL: bool, fA1: bool, fM: bool, inc_drf: bool, inc_dmd: bool, p_drf: Optional[bool], p_dmd: Optional[bool]) -> bool:
+    """
+    post: _
+    """
+    return _tree_case('/t/chA', False, True, pA, pM, pB, pL, fA1, fM, inc_drf, inc_dmd, p_drf, p_dmd)
+
+
+def _ilsdrf_tree_2_1_0(pA: bool, pM: bool, pB: bool, pL: bool, fA1: bool, fM: bool, inc_drf: bool, inc_dmd: bool, p_drf: Optional[bool], p_dmd: Optional[bool]) -> bool:
+    """
+    post: _
+    """
+    return _tree_case('/t/chA/' + TSA, True, False, pA, pM, pB, pL, fA1, fM, inc_drf, inc_dmd, p_drf, p_dmd)
+
+
+def _ilsdrf_tree_2_1_1(pA: bool, pM: bool, pB: bool, pL: bool, fA1: bool, fM: bool, inc_drf: bool, inc_dmd: bool, p_drf: Optional[bool], p_dmd: Optional[bool]) -> bool:
+    """
+    post: _
+    """
+    return _tree_case('/t/chA/' + TSA, True, True, pA, pM, pB, pL, fA1, fM, inc_drf, inc_dmd, p_drf, p_dmd)
+
+
+def _ilsdrf_tree_2_0_0(pA: bool, pM: bool, pB: bool, pL: bool, fA1: bool, fM: bool, inc_drf: bool, inc_dmd: bool, p_drf: Optional[bool], p_dmd: Optional[bool]) -> bool:
+    """
+    post: _
+    """
+    return _tree_case('/t/chA/' + TSA, False, False, pA, pM, pB, pL, fA1, fM, inc_drf, inc_dmd, p_drf, p_dmd)
+
+
+def _ilsdrf_tree_2_0_1(pA: bool, pM: bool, pB: bool, pL: bool, fA1: bool, fM: bool, inc_drf: bool, inc_dmd: bool, p_drf: Optional[bool], p_dmd: Optional[bool]) -> bool:
+    """
+    post: _
+    """
+    return _tree_case('/t/chA/' + TSA, False, True, pA, pM, pB, pL, fA1, fM, inc_drf, inc_dmd, p_drf, p_dmd)
+
+
+def _ilsdrf_tree_witness(pB: bool, inc_drf: bool) -> bool:
+    """
+    post: _
+    """
+    tree = _mk_tree(True, True, pB, True, True, True)
+    got = _ilsdrf(tree, '/t', True, False, inc_drf, True, None, None)
+    return not any('/chB/' in p for p in got)      # reachability twin: a file below the timestamp-named non-channel directory is listed
 
 
 def _listing_witness(p0: bool, p3: bool, start: Optional[int]) -> bool:
